@@ -321,3 +321,16 @@ Proof. reflexivity. Qed.
 Lemma gen_overlaps_eq g a1 l1 a2 l2 :
   ranges_overlap (g, a1, l1) (g, a2, l2) = GenNumeric.overlaps a1 (a1 + l1) a2 (a2 + l2).
 Proof. unfold ranges_overlap, GenNumeric.overlaps. rewrite Z.eqb_refl. reflexivity. Qed.
+
+(* the hypotheses of footprint_overapprox_partial hold for a four-tile NHCWB16 int16 feature map
+   (test_get_address_ranges_4_tiles of the repository), and its ranges are the suite's *)
+Example footprint_example :
+  let fm := {| fm_region := 6; fm_h := 50; fm_w := 10; fm_d := 20; fm_h0 := 30; fm_h1 := 10; fm_w0 := 3;
+               fm_a0 := 16; fm_a1 := 32000; fm_a2 := 8000; fm_a3 := 16000; fm_b16 := true; fm_elem := 2;
+               fm_has_strides := false; fm_sh := 0; fm_sw := 0; fm_sd := 0 |} in
+  strides_ok fm /\ (fm_w fm > fm_w0 fm -> fm_h fm > fm_h1 fm -> fm_h fm > fm_h0 fm) /\
+  get_address_ranges fm = [Some (6, 16, 18952); Some (6, 32000, 6280); Some (6, 8000, 12552); Some (6, 16000, 25480)].
+Proof.
+  cbv zeta. split; [unfold strides_ok; cbn; repeat split; try lia|].
+  split; [cbn; lia | vm_compute; reflexivity].
+Qed.
